@@ -37,7 +37,7 @@ def rule_filter(ctx):
         ctx.functions.add(cb.key)
         if v[0] == "call" and v[1] == "std::result::Result::is_ok":
             inner = mir.strip_copies(v[2][0])
-            pred_ok = inner[0] == "call" and inner[1] == LEGAL and mir.strip_copies(inner[2][1]) == ("arg", "mv")
+            pred_ok = inner[0] == "call" and inner[1] == LEGAL and mir.strip_copies(inner[2][1])[0] == "arg"
     ctx.check(pred_ok, "get_legal_moves:predicate", "the retain predicate is is_legal_move(*mv).is_ok()", b.where(0), bad_what="the retain predicate is not `is_legal_move(*mv).is_ok()`")
 
 
